@@ -29,12 +29,25 @@ pub enum Clause {
     Finished,
 }
 
-pub struct C03x(pub Clause);
+/// .1: the bars' template is "{msg}\n{prefix}:{pos}" with no message (an empty first line) instead of
+/// "{prefix}:{pos}\n+{prefix}"
+pub struct C03x(pub Clause, pub bool);
+
+impl C03x {
+    fn cfg_name(&self) -> String {
+        if self.1 { "two terminals, first template line empty".into() } else { "two terminals".into() }
+    }
+}
 
 impl Hist for C03x {
     type Op = Op;
 
     fn alphabet(&self, _p: &[Op]) -> Vec<Op> {
+        if self.1 {
+            // (a new target that starts with an empty line on a terminal whose cursor the old target left parked
+            // on its last row cannot know that: the variant stays on one terminal)
+            return vec![Op::Println, Op::AddTick, Op::FinishDropFirst, Op::TickLast];
+        }
         vec![Op::Println, Op::AddTick, Op::FinishDropFirst, Op::TickLast, Op::SwitchT, Op::SwitchU]
     }
 
@@ -76,7 +89,7 @@ impl Hist for C03x {
                 }
                 Op::AddTick => {
                     if bars.len() < 3 {
-                        let b = mp.add(ProgressBar::with_draw_target(Some(5), ProgressDrawTarget::hidden()).with_style(ProgressStyle::with_template("{prefix}:{pos}\n+{prefix}").unwrap()).with_prefix(format!("b{}", added)).with_finish(ProgressFinish::AndLeave));
+                        let b = mp.add(ProgressBar::with_draw_target(Some(5), ProgressDrawTarget::hidden()).with_style(ProgressStyle::with_template(if self.1 { "{msg}\n{prefix}:{pos}" } else { "{prefix}:{pos}\n+{prefix}" }).unwrap()).with_prefix(format!("b{}", added)).with_finish(ProgressFinish::AndLeave));
                         b.tick();
                         bars.push(b);
                         names.push(format!("b{}", added));
@@ -109,7 +122,7 @@ impl Hist for C03x {
             });
             if let Err(p) = r {
                 std::mem::forget(bars);
-                return Verdict::Bad(Violation { class: format!("panic: {}", panic_class(&p)), config: "two terminals".into(), history: shown[..(i + 1).saturating_sub(2).min(shown.len())].to_vec(), detail: p });
+                return Verdict::Bad(Violation { class: format!("panic: {}", panic_class(&p)), config: self.cfg_name(), history: shown[..(i + 1).saturating_sub(2).min(shown.len())].to_vec(), detail: p });
             }
         }
         let docs = [spies[0].doc(), spies[1].doc()];
@@ -122,7 +135,7 @@ impl Hist for C03x {
         };
         if self.0 == Clause::Bars && drew && !names.is_empty() {
             // rows of the live bars on the current terminal, in order, after the last printed line
-            let want: Vec<String> = names.iter().flat_map(|n| vec![format!("{n}:0"), format!("+{n}")]).collect();
+            let want: Vec<String> = names.iter().flat_map(|n| if self.1 { vec![format!("{n}:0")] } else { vec![format!("{n}:0"), format!("+{n}")] }).collect();
             let seg: Vec<String> = docs[cur].iter().skip(base).cloned().collect();
             let got: Vec<String> = seg.iter().filter(|r| names.iter().any(|n| r.starts_with(&format!("{n}:")) || **r == format!("+{n}"))).cloned().collect();
             let last_log = seg.iter().rposition(|r| r.starts_with('L'));
@@ -130,7 +143,7 @@ impl Hist for C03x {
             if got != want || matches!((last_log, first_bar), (Some(l), Some(b)) if b < l) {
                 return Verdict::Bad(Violation {
                     class: "bars: after set_draw_target a draw does not show every live bar once, in order, below the printed lines".into(),
-                    config: "two terminals".into(),
+                    config: self.cfg_name(),
                     history: shown,
                     detail: format!("terminal {}: live bars {:?}, shows {:?} (the first {} rows are from before it became the target)", ["T", "U"][cur], names, docs[cur], base),
                 });
@@ -141,11 +154,11 @@ impl Hist for C03x {
                 // ("<name>:5" is only ever painted by the finish)
                 let (fin, second) = (format!("{name}:5"), format!("+{name}"));
                 let at: Vec<usize> = docs[*t].iter().enumerate().filter(|(_, d)| **d == fin).map(|(i, _)| i).collect();
-                let ok = (at.len() == 1 && docs[*t].get(at[0] + 1) == Some(&second)) || (*printed && at.is_empty());
+                let ok = (at.len() == 1 && (self.1 || docs[*t].get(at[0] + 1) == Some(&second))) || (*printed && at.is_empty());
                 if !ok {
                     return Verdict::Bad(Violation {
-                        class: "final-state: a bar that finished visibly and was dropped lost its final rendering without a line being printed (set_draw_target)".into(),
-                        config: "two terminals".into(),
+                        class: "final-state: a bar that finished visibly and was dropped lost its final rendering without a line being printed (two-terminal engine)".into(),
+                        config: self.cfg_name(),
                         history: shown,
                         detail: format!("terminal {}: bar {name} finished there, shows {:?}", ["T", "U"][*t], docs[*t]),
                     });
@@ -161,14 +174,14 @@ impl Hist for C03x {
             if got != want {
                 return Verdict::Bad(Violation {
                     class: "log: a line printed while this terminal was the draw target is missing, duplicated or out of order after set_draw_target".into(),
-                    config: "two terminals".into(),
+                    config: self.cfg_name(),
                     history: shown,
                     detail: format!("terminal {}: printed {:?}, shows {:?}", ["T", "U"][t], want, docs[t]),
                 });
             }
         }
         stats.outcomes.insert(hash_of(&docs));
-        Verdict::Ok { hash: hash_of(&docs), nontrivial: hist.iter().any(|o| matches!(o, Op::SwitchT | Op::SwitchU)) }
+        Verdict::Ok { hash: hash_of(&docs), nontrivial: hist.iter().any(|o| matches!(o, Op::SwitchT | Op::SwitchU | Op::FinishDropFirst)) }
     }
 }
 
@@ -177,11 +190,15 @@ pub fn depth(tier: Tier) -> usize {
 }
 
 pub fn run(tier: Tier, shard: Shard, stats: &mut Stats, clause: Clause) {
-    Dfs::new(&C03x(clause), depth(tier), shard, 1).explore(stats);
+    Dfs::new(&C03x(clause, false), depth(tier), shard, 1).explore(stats);
+    if clause != Clause::Logs {
+        Dfs::new(&C03x(clause, true), depth(tier) + 1, shard, 1).explore(stats);
+    }
 }
 
 pub fn replay(v: &serde_json::Value, id: &str) -> Option<i32> {
-    if v["config"] != "two terminals" {
+    let empty_first = v["config"] == "two terminals, first template line empty";
+    if v["config"] != "two terminals" && !empty_first {
         return None;
     }
     let hist: Vec<String> = v["history"].as_array().map(|a| a.iter().map(|s| s.as_str().unwrap_or("").to_string()).collect()).unwrap_or_default();
@@ -190,5 +207,5 @@ pub fn replay(v: &serde_json::Value, id: &str) -> Option<i32> {
         "C04" => Clause::Finished,
         _ => Clause::Logs,
     };
-    Some(crate::replay_hist(&C03x(clause), &hist, id))
+    Some(crate::replay_hist(&C03x(clause, empty_first), &hist, id))
 }
